@@ -599,3 +599,5 @@ M('r5-never-called-total-overwritten', [('src/fn_mocker.rs', '''            tota
 M('r6-assembler-cursor-starts-at-one', [('src/assemble.rs', '''            current_call_index: 0,''', '''            current_call_index: 1,''')], {'C04': r'R04\.1', 'C18': r'R18\.4'})
 M('r8-contains-shifted', [(FM, '''                pattern.ordered_call_index_range.start <= ordered_call_index
                     && pattern.ordered_call_index_range.end > ordered_call_index''', '''                pattern.ordered_call_index_range.contains(&(ordered_call_index + 1))''')], {'C04': r'R04\.4'})
+M('r8-returner-dropped', [('src/build.rs', '''                Ok(responder) => self.push_responder(responder.into_dyn_responder()),''', '''                Ok(responder) => { let _ = responder; }''')],
+  {'C02': r'R02\.10', 'C12': r'R12\.10', 'C14': r'R14\.5', 'C17': r'R17\.7'})
